@@ -446,7 +446,7 @@ def contexts(ctx):
     gf = cfg_of(fw)
     mk = [x for x in calls_in(fw) if call_name(x) == "os.makedirs"]
     dmp = [x for x in calls_in(fw) if call_name(x) == "dump"]
-    ctx.check(bool(mk) and dotted(mk[0].args[0]) == "self._temp_folder" and bool(dmp) and all(gf.every_path_to(gf.nodes_of(d_), gf.nodes_of_all(mk)) for d_ in dmp), mk[0] if mk else fw,
+    ctx.check(bool(mk) and dotted(mk[0].args[0]) == "self._temp_folder" and bool(dmp) and all(gf.every_path_to(gf.nodes_of(d_), gf.nodes_of_all(mk), skip_exc=True) for d_ in dmp), mk[0] if mk else fw,
               "the temporary folder is created before an array is dumped into it", "the reducer dumps arrays without having created its temporary folder")
     for x in mk:
         tr = [a for a in ancestors(x) if isinstance(a, ast.Try) and in_block(x, a.body)]
